@@ -92,3 +92,25 @@ with all_uids_conn (fuel : nat) (c : iconn) : list nat :=
   | O => []
   | S f => match c with ISer l | IPar l => flat_map (all_uids_node f) l end
   end.
+
+(* ---- CircuiTikZ components (one per element of the connections; a container counts as one) ------------ *)
+Definition tikz_symbol (sym : str) : str :=
+  if str_eqb sym [82%N] then [82%N]                                                        (* Resistor: R *)
+  else if str_eqb sym [67%N] then map Z.to_N [99; 97; 112; 97; 99; 105; 116; 111; 114]%Z       (* Capacitor: capacitor *)
+  else if str_eqb sym [76%N] then [76%N]                                                    (* Inductor: L *)
+  else if str_eqb sym [76%N; 97%N] then [76%N]                                              (* ModifiedInductor: L *)
+  else if str_eqb sym [81%N] then map Z.to_N [99; 112; 101]%Z                               (* ConstantPhaseElement: cpe *)
+  else map Z.to_N [103; 101; 110; 101; 114; 105; 99]%Z.                                      (* generic *)
+
+(* label: symbol_{\rm <label or identifier>} *)
+Definition tikz_label (e : ielt) (id : nat) : str :=
+  ie_sym e ++ map Z.to_N [95; 123; 92; 114; 109; 32]%Z ++ (match ie_label e with [] => dec_str id | l => l end) ++ [125%N].
+
+(* the component lines, in drawing order; identifiers are those of generate_element_identifiers(running) over ALL
+   elements (containers' contents included), but only the elements of the connections are drawn *)
+Definition lookup_id (u : nat) (ids : list (nat * nat)) : nat :=
+  match find (fun p => Nat.eqb (fst p) u) ids with Some p => snd p | None => 0 end.
+Definition tikz_components (fuel : nat) (running : bool) (c : iconn) : list (str * str) :=
+  let all := elems fuel c in
+  let ids := if running then running_ids all else typed_ids all in
+  map (fun e => (tikz_symbol (ie_sym e), tikz_label e (lookup_id (ie_uid e) ids))) (items_conn fuel c).
